@@ -370,7 +370,7 @@ Definition wire (h : headers) : headers := map (fun e => (fst e, map trim_ows (s
 Inductive outcome :=
 | Forwarded (h : headers)     (* header set received by the upstream's HTTP server *)
 | Answered (code : Z)         (* the gateway answered itself; the upstream saw nothing *)
-| NotModelled.                (* connection upgrades (SPDY/WebSocket) take another code path *)
+| NotModelled.                (* unreachable in [pipeline]; kept for models that stop at [filters] *)
 
 Definition send (token client_ip : string) (id : identity) (h : headers) : outcome :=
   let h1 := reverse_proxy_headers client_ip h in
@@ -390,8 +390,7 @@ Inductive filtered :=
 | Refuse (code : Z)
 | Upgrade.
 
-Definition filters (h : headers) (id : identity) (authz : imp_item -> bool) : filtered :=
-  if is_upgrade_request h then Upgrade else
+Definition filters_core (h : headers) (id : identity) (authz : imp_item -> bool) : filtered :=
   let h1 := h_del H_AUTH h in                                   (* WithAuthentication, success *)
   match build_imp_requests h1 with
   | None => Refuse 500                                          (* responsewriters.InternalError *)
@@ -402,9 +401,38 @@ Definition filters (h : headers) (id : identity) (authz : imp_item -> bool) : fi
       else Refuse 403                                           (* responsewriters.Forbidden *)
   end.
 
+(* [filters] singles out connection upgrades for models that do not follow them further (C04) *)
+Definition filters (h : headers) (id : identity) (authz : imp_item -> bool) : filtered :=
+  if is_upgrade_request h then Upgrade else filters_core h id authz.
+
+(* ------------------------------------------------------------------ connection upgrades (exec / attach / port-forward)
+   k8s.io/apimachinery/pkg/util/proxy UpgradeAwareHandler.tryUpgrade: the request is cloned with ALL its headers
+   (Connection and Upgrade are forwarded on this path by design), X-Forwarded-For is appended, the endpoint's
+   upgrade transport (the dynamicImpersonatingRoundTripper found by unwrapUpgradeRequestRoundTripper in
+   pkg/clusters/clusterinfo.go) wraps it with WrapRequest, and http.Request.Write sends it on a freshly dialled
+   connection.  The client-go bearer / user-agent wrappers are NOT on this path: no Authorization header is added
+   (the gateway's credential is then the TLS client certificate, if any). *)
+Definition default_go_user_agent : string := "Go-http-client/1.1".
+Definition upgrade_headers (client_ip : string) (h : headers) : headers :=      (* utilnet.AppendForwardedForHeader *)
+  h_set "X-Forwarded-For"
+        (match h_values "X-Forwarded-For" h with [] => client_ip | p => join ", " p +++ ", " +++ client_ip end) h.
+(* http.Request.Write: the first User-Agent value, Go's default when the header is absent, none when it is empty.
+   (Request.Write treats User-Agent separately from the other headers, so it is modelled before WrapRequest.) *)
+Definition request_write_headers (h : headers) : headers :=
+  if h_has "User-Agent" h
+  then (if String.eqb (h_get "User-Agent" h) EmptyString then h_del "User-Agent" h
+        else h_set "User-Agent" (h_get "User-Agent" h) h)
+  else h_set "User-Agent" default_go_user_agent h.
+
+Definition upgrade_send (client_ip : string) (id : identity) (h : headers) : outcome :=
+  match wrap_request id (request_write_headers (upgrade_headers client_ip h)) with
+  | None => Answered 502                       (* DialForUpgrade error -> proxyErrorResponder *)
+  | Some h2 => Forwarded (wire h2)
+  end.
+
 Definition pipeline (token client_ip : string) (h : headers) (id : identity) (authz : imp_item -> bool) : outcome :=
-  match filters h id authz with
-  | Pass h1 id1 => send token client_ip id1 h1
+  match filters_core h id authz with
+  | Pass h1 id1 => if is_upgrade_request h then upgrade_send client_ip id1 h1 else send token client_ip id1 h1
   | Refuse code => Answered code
   | Upgrade => NotModelled
   end.
